@@ -658,6 +658,15 @@ def drive_accepted(prog, text, rseed):
         n += 1
     rec["run_exc"] = exc
     rec["run_exc_msg"] = c.get("exc_msg")
+    if exc:
+        # how long the failing call had been running without starting a service
+        tail = 0
+        for e in c["out"]:
+            if e[0] == "INV" and e[1] == "ss":
+                tail = 0
+            else:
+                tail += 1
+        rec["service_free_tail"] = tail
     rec["finished"] = bool(run.calls and run.calls[-1].get("final_marking"))
     rec["pending"] = len(run.pending)
     rec["steps"] = n
@@ -715,6 +724,10 @@ def job_run_accepted(args):
                 if out2.get("run_exc") != "RecursionError":
                     out2["k9_depth_only"] = True
                     out = out2
+                elif out2.get("service_free_tail", 0) >= 300:
+                    # still too deep with a 15 times larger limit, after hundreds of guard evaluations / notifications
+                    # without a single service start: a loop that never ends and never waits (e.g. `... Or true`)
+                    out["k9_constant_guard"] = True
         rec.update(out)
         signal.alarm(0)
         return rec
